@@ -1,2 +1,57 @@
+import PelModel.Plugins
+import PelProofs.Plugins
+/-
+  C19 — Decoding a PEL gives the same result whatever was decoded before it.
+  The only state that survives a decode in the model is the three module caches; a decode looks modules up THROUGH the
+  caches and afterwards stores the import results of whatever modules it touched (any set).
+-/
 namespace Pel.C19
+
+/-- a fresh process has coherent (empty) caches -/
+theorem coherent_init (env : Env) : Coherent env {} :=
+  ⟨fun n => lookCache_nil _ n, fun n => lookCache_nil _ n, fun n => lookCache_nil _ n⟩
+
+/-- ★ with coherent caches a decode gives exactly the result of a decode in a fresh process -/
+theorem coherent_decode (env : Env) (cfg : SelCfg) (c : Caches) (b : Bytes) (hc : Coherent env c) :
+    parsePEL (env.through c) cfg b = parsePEL env cfg b := by
+  rw [through_eq_of_coherent env c hc]
+
+/-- ★ coherence is preserved by every decode: well-formed, damaged or failing input, whatever modules it touched -/
+theorem inv_preserved (env : Env) (cfg : SelCfg) (c : Caches) (b : Bytes) (t : Touched) (hc : Coherent env c) :
+    Coherent env (decodeS env cfg c b t).2 := by
+  obtain ⟨h1, h2, h3⟩ := hc
+  exact ⟨storeImports_coherent _ _ _ h1, storeImports_coherent _ _ _ h2, storeImports_coherent _ _ _ h3⟩
+
+theorem history_coherent (env : Env) (cfg : SelCfg) (h : List (Bytes × Touched)) (c : Caches) (hc : Coherent env c) :
+    Coherent env (runHistory env cfg c h) := by
+  induction h generalizing c with
+  | nil => exact hc
+  | cons p h ih =>
+    obtain ⟨b, t⟩ := p
+    unfold runHistory
+    exact ih _ (inv_preserved env cfg c b t hc)
+
+/-- ★ history independence: after ANY sequence of decodes the result for `b` is the result of decoding `b` first -/
+theorem history_independent (env : Env) (cfg : SelCfg) (h : List (Bytes × Touched)) (b : Bytes) (t : Touched) :
+    (decodeS env cfg (runHistory env cfg {} h) b t).1 = parsePEL env cfg b :=
+  coherent_decode env cfg _ b (history_coherent env cfg h {} (coherent_init env))
+
+/-- decoding the same input twice, or in another order of the directory, gives identical output -/
+theorem repeat_same (env : Env) (cfg : SelCfg) (h h' : List (Bytes × Touched)) (b : Bytes) (t t' : Touched) :
+    (decodeS env cfg (runHistory env cfg {} h) b t).1 = (decodeS env cfg (runHistory env cfg {} h') b t').1 := by
+  rw [history_independent, history_independent]
+
+/-- documentation of the repaired defect: a cache that stored "not found" for a module that exists (as the code did after
+    a failing parser call) is not coherent, and the module is then no longer consulted -/
+theorem poisoned_cache_not_coherent (env : Env) (n : Text) (he : env.ud n = .echo) :
+    ¬ Coherent env { ud := [(n, .absent)] } ∧ (env.through { ud := [(n, .absent)] }).ud n = .absent := by
+  have hl : lookCache [(n, UdPlugin.absent)] env.ud n = .absent := by
+    rw [lookCache_cons]; simp
+  refine ⟨?_, hl⟩
+  intro hc
+  have := hc.1 n
+  rw [he] at this
+  rw [show ({ ud := [(n, .absent)] } : Caches).ud = [(n, UdPlugin.absent)] from rfl, hl] at this
+  exact UdPlugin.noConfusion this
+
 end Pel.C19
